@@ -345,11 +345,33 @@ Theorem parse_path_c_result dbg ctx st hh ps ser l :
   fst (parse_path_c dbg ctx st hh ps ser l) = parse_path dbg ctx st hh ps ser l.
 Proof. apply parse_path_loop_c_result. Qed.
 
+(* the skip test of extend() *)
+Lemma dots_eq_c_spec k l :
+  fst (dots_eq_c k l) = list_eqb (filter (fun c => negb (is_tnl c)) l) (repeat 46 k) /\ snd (dots_eq_c k l) <= nlen l.
+Proof.
+  revert k. induction l as [|c r IH]; intros k; cbn [dots_eq_c filter].
+  - destruct k; cbn; split; try reflexivity; lia.
+  - rewrite nlen_cons. destruct (is_tnl c); cbn [negb].
+    + destruct (IH k) as [H1 H2]. destruct (dots_eq_c k r) as [b n]. cbn [fst snd] in *. split; [exact H1 | lia].
+    + destruct k as [|k']; cbn [repeat list_eqb fst snd]; [split; [reflexivity | lia]|].
+      destruct (c =? 46); cbn [andb fst snd]; [|split; [reflexivity | lia]].
+      destruct (IH k') as [H1 H2]. destruct (dots_eq_c k' r) as [b n]. cbn [fst snd] in *. split; [exact H1 | lia].
+Qed.
+
+Lemma psm_skips_c_spec seg : fst (psm_skips_c seg) = psm_skips seg /\ snd (psm_skips_c seg) <= 2 * nlen seg.
+Proof.
+  unfold psm_skips_c, psm_skips. cbv zeta.
+  destruct (dots_eq_c_spec 1 seg) as [A1 A2]. destruct (dots_eq_c_spec 2 seg) as [B1 B2].
+  destruct (dots_eq_c 1 seg) as [b1 n1]. destruct (dots_eq_c 2 seg) as [b2 n2]. cbn [fst snd repeat] in *.
+  rewrite <- A1, <- B1. destruct b1; cbn [fst snd orb]; split; try reflexivity; lia.
+Qed.
+
 Lemma psm_extend_loop_c_result dbg st ps segs : forall s,
   fst (psm_extend_loop_c dbg st ps s segs) = psm_extend_loop dbg st ps s segs.
 Proof.
   induction segs as [|seg rest IH]; intros s; cbn [psm_extend_loop_c psm_extend_loop]; [reflexivity|].
-  destruct (list_eqb seg [46] || list_eqb seg [46; 46]).
+  destruct (psm_skips_c_spec seg) as [Hk _]. destruct (psm_skips_c seg) as [skip k]. cbn [fst] in Hk. rewrite <- Hk.
+  destruct skip.
   - specialize (IH s). destruct (psm_extend_loop_c dbg st ps s rest). exact IH.
   - set (s1 := if (ps + 1 <? nlen s) || (nlen s =? ps) then s ++ [47] else s).
     pose proof (parse_path_c_result dbg CPathSegmentSetter st true ps s1 seg) as Hp.
